@@ -498,6 +498,14 @@ def phi_4D_to_5D(phi, f1,f2,f3, xx,yy,zz,aa,bb, deme_ids=None):
 
     return phi_5D
 
+def _check_pulse_proportions(*props):
+    """
+    Raise ValueError if the admixture proportions of a pulse sum to more than 1.
+    """
+    if sum(props) > 1:
+        raise ValueError('Admixture proportions (%s) are non-sensible: they sum '
+                         'to more than 1.' % ', '.join(str(_) for _ in props))
+
 def phi_2D_admix_1_into_2(phi, f, xx,yy):
     """
     Admix population 1 into population 2.
@@ -518,6 +526,7 @@ def phi_2D_admix_1_into_2(phi, f, xx,yy):
     # a population with zz=yy. We could do this by creating a xx by yy by yy
     # array, then integrating out the second population. That's a big waste of
     # memory, however.
+    _check_pulse_proportions(f)
     Demes.cache.append(Demes.Pulse(sources=[1], dest=2, proportions=[f]))
     lower_z_index, upper_z_index, frac_lower, frac_upper, norm \
             = _two_pop_admixture_intermediates(phi, f, xx,yy,yy)
@@ -557,6 +566,7 @@ def phi_2D_admix_2_into_1(phi, f, xx,yy):
     """
     # Note that it's 1-f here since f now denotes the fraction coming from
     # population 2.
+    _check_pulse_proportions(f)
     Demes.cache.append(Demes.Pulse(sources=[2], dest=1, proportions=[f]))
     lower_z_index, upper_z_index, frac_lower, frac_upper, norm \
             = _two_pop_admixture_intermediates(phi, 1-f, xx,yy,xx)
@@ -590,6 +600,7 @@ def phi_3D_admix_1_and_2_into_3(phi, f1,f2, xx,yy,zz):
     Returns:
         phi (array): The updated phi array.
     """
+    _check_pulse_proportions(f1, f2)
     Demes.cache.append(Demes.Pulse(sources=[1,2], dest=3, proportions=[f1,f2]))
     lower_w_index, upper_w_index, frac_lower, frac_upper, norm \
             = _three_pop_admixture_intermediates(phi, f1,f2, xx,yy,zz, zz)
@@ -627,6 +638,7 @@ def phi_3D_admix_1_and_3_into_2(phi, f1,f3, xx,yy,zz):
     Returns:
         phi (array): The updated phi array.
     """
+    _check_pulse_proportions(f1, f3)
     Demes.cache.append(Demes.Pulse(sources=[1,3], dest=2, proportions=[f1,f3]))
     lower_w_index, upper_w_index, frac_lower, frac_upper, norm \
             = _three_pop_admixture_intermediates(phi, f1,1-f1-f3, xx,yy,zz, yy)
@@ -664,6 +676,7 @@ def phi_3D_admix_2_and_3_into_1(phi, f2,f3, xx,yy,zz):
     Returns:
         phi (array): The updated phi array.
     """
+    _check_pulse_proportions(f2, f3)
     Demes.cache.append(Demes.Pulse(sources=[2,3], dest=1, proportions=[f2,f3]))
     lower_w_index, upper_w_index, frac_lower, frac_upper, norm \
             = _three_pop_admixture_intermediates(phi, 1-f2-f3,f2, xx,yy,zz, xx)
@@ -703,6 +716,7 @@ def phi_4D_admix_into_1(phi, f2,f3,f4, xx,yy,zz,aa):
     Returns:
         phi (array): The updated phi array.
     """
+    _check_pulse_proportions(f2, f3, f4)
     Demes.cache.append(Demes.Pulse(sources=[2,3,4], dest=1, proportions=[f2,f3,f4]))
     lower_w_index, upper_w_index, frac_lower, frac_upper, norm \
             = _four_pop_admixture_intermediates(phi, 1-f2-f3-f4,f2,f3, xx,yy,zz,aa, xx)
@@ -743,6 +757,7 @@ def phi_4D_admix_into_4(phi, f1,f2,f3, xx,yy,zz,aa):
     Returns:
         phi (array): The updated phi array.
     """
+    _check_pulse_proportions(f1, f2, f3)
     Demes.cache.append(Demes.Pulse(sources=[1,2,3], dest=1, proportions=[f1, f2, f3]))
     lower_w_index, upper_w_index, frac_lower, frac_upper, norm \
             = _four_pop_admixture_intermediates(phi, f1,f2,f3, xx,yy,zz,aa, aa)
@@ -781,6 +796,7 @@ def phi_4D_admix_into_3(phi, f1,f2,f4, xx,yy,zz,aa):
     Returns:
         phi (array): The updated phi array.
     """
+    _check_pulse_proportions(f1, f2, f4)
     Demes.cache.append(Demes.Pulse(sources=[1,2,4], dest=3, proportions=[f1, f2, f4]))
     lower_w_index, upper_w_index, frac_lower, frac_upper, norm \
             = _four_pop_admixture_intermediates(phi, f1,f2,1-f1-f2-f4, xx,yy,zz,aa, zz)
@@ -819,6 +835,7 @@ def phi_4D_admix_into_2(phi, f1,f3,f4, xx,yy,zz,aa):
     Returns:
         phi (array): The updated phi array.
     """
+    _check_pulse_proportions(f1, f3, f4)
     Demes.cache.append(Demes.Pulse(sources=[1,3,4], dest=2, proportions=[f1, f3, f4]))
     lower_w_index, upper_w_index, frac_lower, frac_upper, norm \
             = _four_pop_admixture_intermediates(phi, f1,1-f1-f3-f4,f3, xx,yy,zz,aa, yy)
@@ -859,6 +876,7 @@ def phi_5D_admix_into_1(phi, f2,f3,f4,f5, xx,yy,zz,aa,bb):
     Returns:
         phi (array): The updated phi array.
     """
+    _check_pulse_proportions(f2, f3, f4, f5)
     lower_w_index, upper_w_index, frac_lower, frac_upper, norm \
             = _five_pop_admixture_intermediates(phi, 1-f2-f3-f4-f5,f2,f3,f4, xx,yy,zz,aa,bb, xx)
 
@@ -899,6 +917,7 @@ def phi_5D_admix_into_2(phi, f1,f3,f4,f5, xx,yy,zz,aa,bb):
     Returns:
         phi (array): The updated phi array.
     """
+    _check_pulse_proportions(f1, f3, f4, f5)
     lower_w_index, upper_w_index, frac_lower, frac_upper, norm \
             = _five_pop_admixture_intermediates(phi, f1, 1-f1-f3-f4-f5,f3,f4, xx,yy,zz,aa,bb, yy)
 
@@ -939,6 +958,7 @@ def phi_5D_admix_into_3(phi, f1,f2,f4,f5, xx,yy,zz,aa,bb):
     Returns:
         phi (array): The updated phi array.
     """
+    _check_pulse_proportions(f1, f2, f4, f5)
     lower_w_index, upper_w_index, frac_lower, frac_upper, norm \
             = _five_pop_admixture_intermediates(phi, f1, f2, 1-f1-f2-f4-f5,f4, xx,yy,zz,aa,bb, zz)
 
@@ -979,6 +999,7 @@ def phi_5D_admix_into_4(phi, f1,f2,f3,f5, xx,yy,zz,aa,bb):
     Returns:
         phi (array): The updated phi array.
     """
+    _check_pulse_proportions(f1, f2, f3, f5)
     lower_w_index, upper_w_index, frac_lower, frac_upper, norm \
             = _five_pop_admixture_intermediates(phi, f1, f2, f3, 1-f1-f2-f3-f5, xx,yy,zz,aa,bb, aa)
 
@@ -1019,6 +1040,7 @@ def phi_5D_admix_into_5(phi, f1,f2,f3,f4, xx,yy,zz,aa,bb):
     Returns:
         phi (array): The updated phi array.
     """
+    _check_pulse_proportions(f1, f2, f3, f4)
     lower_w_index, upper_w_index, frac_lower, frac_upper, norm \
             = _five_pop_admixture_intermediates(phi, f1, f2, f3, f4, xx,yy,zz,aa,bb, bb)
 
